@@ -20,6 +20,7 @@ DECIDED = [
     "C06.6 clone sources / flat nodes are never run, cleaned or rerun (first rows of the three decision tables)",
     "C06.10 cloning of multi-producer branches: one clone per producer built from its own clone source, dependants re-queued against that source, at any depth",
     "C06.7 get_dependency accepts a setup node only for the same object (identity or long suffix) and matching name/state",
+    "C06.11 is_flat / is_object_root / is_shared_root / id definitions; read-only bridged/cloned views; fresh per-node edge containers",
 ]
 NOT_DECIDED = ["acyclicity", "reachability of every node", "exactly one producer per required state", "uniqueness of identities for all inputs"]
 MIN_INSTANCES = 30
@@ -43,6 +44,10 @@ def run(ctx):
     ctx.call(GR.identity_forms, "8")
     ctx.call(GR.node_objects, "9")
     ctx.call(GR.cloning, "10")
+    from . import atoms as A
+
+    ctx.call(A.definitions, "11", only=('is_flat','is_object_root','is_shared_root','bridged_nodes','cloned_nodes','id'))
+    ctx.call(A.fresh_state, "11f")
 
 
 NODE = "cartgraph/node.py"
